@@ -215,3 +215,95 @@ def c_local_eq(ctx, it, cfg):
         ctx.prove('set%d/site-fractions-kept-as-starting-point' % i, and_(*[eq(c.dof.get(4 + j), old[i](4 + j)) for j in range(3)]))
     ctx.prove('canary/state-variables-were-stale', eq(css[0].dof.get(3), old[0](3)), expect='refuted')
     ctx.prove('solver-called-once-with-these-sets-and-conditions', len(solved) == 1 and solved[0][0] is css and all(eq(solved[0][1][k], conds[k]) is True or isinstance(eq(solved[0][1][k], conds[k]), SV) or solved[0][1][k] == conds[k] for k in conds))
+
+
+@REG.contract('BinaryThermodynamics.getInterfacialComposition/batch-equals-point-by-point', [BT + ':BinaryThermodynamics.getInterfacialComposition', UT + ':_process_TG_arrays'],
+              configs=[dict(name='n=3'), dict(name='T-scalar,g-array', Tscalar=True)])
+def c_bin_batch(ctx, it, cfg):
+    """condition i of a batch is evaluated at ITS temperature and Gibbs-Thomson energy: result[i] = f(T[i], g[i]) for the single-point routine f"""
+    import z3
+    v = install(it)
+    n = 3
+    b = new_obj(it, BT, 'BinaryThermodynamics', elements=['AL', 'ZR', 'VA'], phases=['FCC_A1', 'AL3ZR'])
+    XA = sym.uf('xa_single', sym.R, sym.R, sym.R)
+    XB = sym.uf('xb_single', sym.R, sym.R, sym.R)
+    calls = []
+
+    def single(T, g, phase):
+        calls.append((T, g, phase))
+        if isinstance(g, ArrBase) and g.ndim:
+            gf = g.snap()
+            return (Arr(g.shape, lambda i: SV(XA(sym.zterm(T, True), sym.zterm(gf(i), True))), 'real'), Arr(g.shape, lambda i: SV(XB(sym.zterm(T, True), sym.zterm(gf(i), True))), 'real'))
+        return SV(XA(sym.zterm(T, True), sym.zterm(g, True))), SV(XB(sym.zterm(T, True), sym.zterm(g, True)))
+    b.fields['_interfacialComposition'] = single
+    Ts = [real(ctx, 'T%d' % i, lambda x: x > 0) for i in range(n)]
+    gs = [real(ctx, 'g%d' % i) for i in range(n)]
+    T = Ts[0] if cfg.get('Tscalar') else NP.array(Ts)
+    g = NP.array(gs)
+    sT, sg = snapshot(T), snapshot(g)
+    xa, xb = b.getInterfacialComposition(T, g, 'AL3ZR')
+    for i in range(n):
+        Ti = Ts[0] if cfg.get('Tscalar') else Ts[i]
+        ctx.prove('condition%d-evaluated-at-its-own-temperature-and-energy' % i,
+                  and_(eq(xa.get(i), SV(XA(sym.zterm(Ti, True), sym.zterm(gs[i], True)))), eq(xb.get(i), SV(XB(sym.zterm(Ti, True), sym.zterm(gs[i], True))))))
+    ctx.prove('precipitate-phase-forwarded', all(c[2] == 'AL3ZR' for c in calls) and len(calls) >= 1)
+    if not cfg.get('Tscalar'):
+        unchanged(ctx, 'arg:T', sT, T)
+    unchanged(ctx, 'arg:gExtra', sg, g)
+    ctx.prove('canary/all-at-the-first-temperature', eq(xa.get(1), SV(XA(sym.zterm(Ts[0], True), sym.zterm(gs[1], True)))), expect='refuted') if not cfg.get('Tscalar') else None
+
+
+@REG.contract('SinglePhaseModel._getFluxes/cache-call-site', ['kawin.diffusion.SinglePhase:SinglePhaseModel._getFluxes'], configs=[dict(name='E=1', E=1), dict(name='E=2', E=2)])
+def c_flux_cache(ctx, it, cfg):
+    """the diffusivity of node i is looked up, computed and STORED under the key of node i: (its composition column, its temperature)"""
+    from . import c04
+    E = cfg['E']
+    SP = 'kawin.diffusion.SinglePhase'
+    m, N, dz, bc, els, x, minC = c04.mk_model(ctx, it, E, (0, 0) * E, cls=(SP, 'SinglePhaseModel'))
+    Tz = array(ctx, 'T', (N,), fact=lambda v, i: v > 0)
+    m.fields['temperatureParameters'] = lambda z, t: Tz
+    log = []
+
+    class Hash(object):
+        def retrieveFromHashTable(self, xx, TT):
+            hit = boolean(ctx, 'hit%d' % len(log))
+            log.append(('get', xx, TT, hit))
+            if hit:
+                return real(ctx, 'Dcached%d' % len(log)) if E == 1 else array(ctx, 'Dcached%d' % len(log), (E, E))
+            return None
+
+        def addToHashTable(self, xx, TT, v):
+            log.append(('add', xx, TT, v))
+    m.fields['hashTable'] = Hash()
+
+    class Therm(object):
+        def getInterdiffusivity(self, xx, TT, phase=None):
+            v = real(ctx, 'Dnode%d' % len(log)) if E == 1 else array(ctx, 'Dnode%d' % len(log), (E, E))
+            log.append(('calc', xx, TT, v))
+            return v
+    m.fields['therm'] = Therm()
+    key = it.get(SP, 'SinglePhaseModel._getFluxes').key
+    D = array(ctx, 'D', (N,) if E == 1 else (N, E, E))
+
+    def havoc(env, c):
+        env['d'] = D
+        env['inter_diff'] = None
+        del log[:]
+
+    def same_key(c, i, xx, TT):
+        col = and_(*[eq(xx.get(e), x.get(e, i)) for e in range(E)])
+        return and_(col, eq(TT, Tz.get(i)))
+
+    def body_post(env, c, g):
+        i = env['i']
+        gets = [e for e in log if e[0] == 'get']
+        c.prove('node-loop/looked-up-under-the-key-of-this-node', len(gets) == 1 and same_key(c, i, gets[0][1], gets[0][2]))
+        adds = [e for e in log if e[0] == 'add']
+        calcs = [e for e in log if e[0] == 'calc']
+        if calcs:
+            c.prove('node-loop/computed-for-this-node', len(calcs) == 1 and same_key(c, i, calcs[0][1], calcs[0][2]))
+            c.prove('node-loop/stored-under-the-key-of-this-node-with-the-computed-value', len(adds) == 1 and adds[0][3] is calcs[0][3] and same_key(c, i, adds[0][1], adds[0][2]))
+        else:
+            c.prove('node-loop/a-hit-stores-nothing', len(adds) == 0)
+    it.loop_specs[(key, 0)] = LoopSpec(lambda env, c: [], havoc, name='node-loop', body_post=body_post)
+    m._getFluxes(real(ctx, 't'), [x])
